@@ -1,33 +1,279 @@
-"""Per-property tables used by check.py: claimed level, how cases are generated
-and counted (rule), what the check trusts (assumptions), minimum event counts
-below which a run is inconclusive, positive controls that must fire, stages."""
+"""Per-property tables used by check.py and mkmanifest.py: claimed level, how
+cases are generated and counted (rule), what the check trusts (assumptions),
+minimum event counts below which a run is inconclusive (starved monitor),
+positive controls that must fire, and the stages to run per tier."""
 
 REL = {"name": "release", "profile": "release", "primary": True}
-DEV = {"name": "dev", "profile": "dev", "primary": False, "args": ["--scale", "0.25"]}
+# the dev build keeps overflow checks and debug assertions on: it flips the
+# failure mode of the u32 length arithmetic in the decoders
+DEV = {"name": "dev", "profile": "dev", "primary": False, "args": ["--scale", "0.25"], "min_scale": 0.0}
+DEV_T = dict(DEV, tiers=("thorough",))
 
 PROPS = {}
-
-PROPS["C07"] = {
-    "level": "exploration",
-    "rule": ("operand pairs from a boundary lattice around 0, 1, 2^63/2^64/2^127/2^128, 12451, (p-1)/2, p-1, Montgomery "
-             "constants (all pairs lattice x lattice, exhaustively) plus seeded uniform operands; every operation of the "
-             "field API compared with num-bigint arithmetic; 24-byte strings (canonical, >= p, high-limb, uniform) for "
-             "decoding; published constants checked against their meaning in ff::PrimeField. A case is distinct by its "
-             "operand values / input bytes; trivial duplicates are removed by hashing (op-independent)."),
-    "assumptions": ["num-bigint 0.3 arithmetic is correct (independent of ff's Montgomery code)",
-                    "operands are sampled, not enumerated: exhaustive only on the lattice",
-                    "primality of p and (p-1)/2 by Miller-Rabin with 24 prime bases"],
-    "min_events": {"mul": 2000, "invert": 500, "sqrt": 500, "decode_noncanonical": 1000, "const_checks": 1},
-    "stages": [REL],
-}
-
+MANIFEST_TEXT = {}
 NOT_APPLICABLE = {}
 
-MANIFEST_TEXT = {}
-MANIFEST_TEXT["C07"] = {
-    "technique": "runtime differential monitor: every Fp operation vs num-bigint on boundary lattice^2 + seeded uniform operands; constant-meaning checks",
-    "level_text": ("Every field operation, decoding and published constant is executed on the real star_sharks::Fp and compared "
-                   "with an independent big-integer model: exhaustively on a 52-value boundary lattice squared, sampled "
-                   "(2e5 quick / 2e7 thorough pairs) elsewhere. Held-on-observed, not a proof over 2^258 pairs."),
-    "level_note": "trusts num-bigint; sampling outside the lattice; constants judged by their ff::PrimeField meaning (orders, residuosity), not by value",
-}
+
+def P(pid, level, rule, assumptions, min_events, stages, technique, level_text, level_note, controls=()):
+    PROPS[pid] = {"level": level, "rule": rule, "assumptions": assumptions, "min_events": min_events,
+                  "stages": stages, "controls": list(controls)}
+    MANIFEST_TEXT[pid] = {"technique": technique, "level_text": level_text, "level_note": level_note}
+
+
+P("C01", "exploration",
+  "seeded scenarios (measurement length/content classes incl. the Strobe rate boundary, epoch, threshold, n=t..2t, per-client aux "
+  "classes, randomness source local / live PPOPRF round / arbitrary / all-00 / all-FF); every report crosses to_bytes/from_bytes; "
+  "selections: generation order, reversed, permuted, exactly t, duplicates anywhere, duplicate run in front, surplus, and for n<=5 "
+  "(thorough 6) every subset of size >= t in every order; after each recovery every report is decrypted with the key from public API "
+  "and parsed by an independent framing parser. distinct = (t, surplus class, pattern, length class, aux class, source) tuples + "
+  "exhaustive (t, n) configurations.",
+  ["share points come from the OS RNG and are not controlled: each run samples them afresh",
+   "success is only demanded when the monitor itself counts >= t distinct x in the selection (documented share layout)"],
+  {"recover": 5000, "decrypt": 5000, "exhaustive_selections": 1000, "encode_decode": 2000},
+  [REL, DEV_T],
+  "runtime send/reveal ledger monitor over seeded scenarios and exhaustive small-n selections",
+  "Held-on-observed: every generated scenario recovered from every selection with >= t distinct shares and every report revealed "
+  "exactly its client's (measurement, aux). Exhaustive only over subsets/permutations for n <= 5/6; sampled otherwise.",
+  "independent payload parser and share-layout parser are trusted; OS randomness uncontrolled")
+
+P("C02", "exploration",
+  "M1: per target sharing (t=2..64, thorough 128) attack collections on share_recover: k<t distinct shares padded with repeats, "
+  "foreign shares of other measurement / epoch / threshold (below and above their own threshold; target first, foreign first, "
+  "interleaved), threshold field rewritten at byte level in the first / all shares to 0..k, t-1, t+1, 2^31, 2^32-1; every "
+  "sub-threshold subset for t<=5; explicit attacker Lagrange interpolation on sub-threshold subsets. M2: 8..32-byte secrets "
+  "(measurement, aux, client randomness, r0, r1, K, K as element, encryption key, 16-byte prefixes) scanned at every offset of every "
+  "encoded report, and M/R/K in adss shares. M3: Newton interpolation of t of t+2 shares: exact degree, non-zero pairwise distinct "
+  "coefficients, global coefficient set across neighbour sharings. distinct = (collection kind, t, size) / (scan shape) / (t, neighbour kind).",
+  ["secrecy is decided only in the observable formulations of the statement (never returned, not at any offset, attacker "
+   "interpolation fails, coefficients not shared) - not indistinguishability",
+   "coins needle r1 is used only when the public derivation reproduces r0"],
+  {"attack_collection": 10000, "attacker_interpolation": 1000, "needle_scans": 10000, "polynomial_interpolated": 500,
+   "coefficient_checked": 2000},
+  [REL, DEV_T],
+  "runtime attack-collection monitor + clear-text scanner + BigUint polynomial-shape monitor",
+  "Held-on-observed over ~1e5 hostile collections, ~1e5 needle scans and ~2e3 interpolated sharings per quick run.",
+  "BigUint interpolation trusted; needles >= 8 uniform bytes so chance hits are negligible",
+  controls=["t_honest_shares_recover", "scanner_finds_public_tag"])
+
+P("C03", "exploration",
+  "pairs and sequences (2..6) of reports of one (measurement, epoch, t) with different associated data (1..600 bytes, thorough 2 KiB, "
+  "common prefixes, single-byte differences): longest run from the first differing payload byte on which c1^c2 == p1^p2 (run >= 8 is a "
+  "witness; > 200 bytes = unbounded reuse); every 16-byte window of every encoded report tried as key and every 32-byte window as key "
+  "seed; uniform aux scanned in the clear. distinct = (measurement length, long-tail flag, sequence length) and window shapes.",
+  ["XOR-relation witnesses need a run of >= 8 bytes", "payloads rebuilt with the harness' own framing"],
+  {"pair_examined": 3000, "pairs_with_long_tail": 300, "window_as_key": 20000, "window_as_seed": 20000, "aux_scan": 100},
+  [REL],
+  "runtime XOR-relation monitor over report pairs + window-as-key attacker + clear-text scanner",
+  "Held-on-observed for clear-text and report-carried-key formulations; the XOR relation is a KNOWN FINDING (bounded keystream reuse) "
+  "on the unchanged tree and stays armed for the unbounded variant.",
+  "the known finding is keyed on signature keystream-reuse:bounded only",
+  controls=["true_key_decrypts"])
+
+P("C04", "exploration",
+  "enumerated neighbour families of (measurement, epoch, threshold): every split of a concatenation m||e (|m||e|<=12), prefix pairs, "
+  "swaps, empty components, threshold vs threshold^2^b for all 32 b and +-1, bytes moved between threshold / epoch / measurement, plus "
+  "unrelated triples; 2..9 independent clients per triple through Message::generate (different aux) and share_with_local_randomness; "
+  "global injectivity maps for randomness / tag / key. distinct = triples.",
+  ["thresholds above 1024 observe sample_local_randomness only (dealing is O(t))", ">= 128-bit values: chance collisions ignored"],
+  {"sample_local_randomness": 20000, "combine": 3000, "injectivity_insert": 10000, "share_points_checked": 3000},
+  [REL],
+  "runtime determinism/injectivity monitor over enumerated neighbour triples",
+  "Held-on-observed over ~3e4 triples per quick run incl. all boundary-shift families.",
+  "value maps are exact (hash map on full values)")
+
+P("C05", "fault_enumeration",
+  "for sharings with t=2..6: every field of the encoded share (threshold, S length, x, y, C length, C, D length, D, J) x every byte "
+  "position x faults {flip bit0, flip bit7, +1, :=00, :=FF} (thorough: all 8 bit flips) x position of the faulted share "
+  "(first / inside the first t / beyond), at adss::recover and sta_rs::share_recover; mixtures of up to 3 sharings in random orders "
+  "with repeats; cross-grafting C/D/J/threshold of another sharing into the first share. distinct = (field, position class, fault, "
+  "byte offset, t) and mixture shapes.",
+  ["field offsets come from the independent layout parser", "an alteration counts as such when the layout-level value of the share changed"],
+  {"recover_faulted": 50000, "outcome_err": 10000, "outcome_ok_right_message": 5000},
+  [REL, DEV_T],
+  "runtime fault enumeration against ground-truth messages",
+  "Every single-field single-byte fault of the enumerated set at every offset and share position class was executed; outcome must be "
+  "error or the first share's message, and error when the ciphertext-supplying share changed.",
+  "single-byte faults only (plus whole-field grafts); multi-fault combinations sampled through mixtures",
+  controls=["unfaulted_collection_recovers"])
+
+P("C06", "exploration",
+  "dealings with t in 1..600 (mostly 1..24; 40/64/100 and 255/500/600 periodically), secrets of 0..16 elements from "
+  "{0,1,2^64-1,2^64,2^128-1,2^128,p-1,uniform} plus ignored partial tails, dealer driven by a recording ChaCha20 stream with "
+  "adversarial zero / all-ones word splices; expected coefficients from replaying the recorded stream through Fp::random; shares "
+  "from the iterator and from Evaluator::gen (second recorded stream, incl. an all-zero point draw); BigUint Horner on every share; "
+  "recovery over the C01 selection patterns, exhaustive for n<=5; sub-threshold, mixed and unequal-length collections; out-of-range "
+  "secrets. distinct = (t, k, adversarial, tail) and (t, k, pattern).",
+  ["the order-sensitive check falls back to an order-insensitive multiset comparison of interpolated coefficients",
+   "random streams are seeded ChaCha20 plus targeted splices, not all streams"],
+  {"deal": 2000, "horner_check": 50000, "recover": 30000, "deal_out_of_range": 300, "zero_point_stream": 100},
+  [REL],
+  "runtime differential monitor against a BigUint Shamir model with recorded/replayed random streams",
+  "Held-on-observed: every dealt share satisfied y = f(x) for the replay-derived polynomials, x != 0, recovery exact.",
+  "num-bigint trusted; Fp::random used only to map a recorded word stream to elements")
+
+P("C07", "exploration",
+  "operand pairs from a 52-value boundary lattice around 0, 1, 2^63/2^64/2^127/2^128, 12451, (p-1)/2, p-1 and Montgomery constants "
+  "(ALL pairs lattice x lattice) plus seeded uniform operands; every operation of the field API (+ - neg double * square cube invert "
+  "pow pow_vartime sqrt sqrt_ratio, assigning and iterator forms, from u64/u128/str, predicates) compared with num-bigint; 24-byte "
+  "strings (canonical, >= p, second encodings v+p, high-limb bits, uniform) for decoding; published constants checked against their "
+  "ff::PrimeField meaning. distinct = operand pairs / input strings.",
+  ["num-bigint 0.3 arithmetic is correct (independent of ff's Montgomery code)", "exhaustive only on the lattice; sampled elsewhere",
+   "primality of p and (p-1)/2 by Miller-Rabin with 24 prime bases"],
+  {"mul": 2000, "invert": 500, "sqrt": 500, "decode_noncanonical": 1000, "const_checks": 1},
+  [REL],
+  "runtime differential monitor: every Fp operation vs num-bigint on lattice^2 + uniform operands; constant-meaning checks",
+  "Exhaustive on the boundary lattice squared, 2e5 (quick) / 2e7 (thorough) sampled pairs elsewhere; not a proof over 2^258 pairs.",
+  "trusts num-bigint; constants judged by orders/residuosity, not by value")
+
+P("C08", "fault_enumeration",
+  "(a) honest reports / adss shares (message and coin lengths to 5 000, thorough 100 000) / Shamir shares with 0..16 y: "
+  "decode(encode(v)) == v and every field equal to ground truth under the independent layout parser; (b) differential decoding of "
+  "hostile strings for Share::try_from, adss::Share::from_bytes, sta_rs::Share::from_bytes, Message::from_bytes, load_bytes, load_u32, "
+  "AccessStructure::from_bytes: every prefix, every length field set to 21 boundary values, byte/bit faults at every offset, "
+  "out-of-range elements in x and every y, trailing bytes, splices, uniform strings; model says reject or accept-with-canonical-form "
+  "and the decoder must agree and re-encode to exactly that form. distinct = (decoder, input bytes).",
+  ["the layout model is the documented layout (4-byte LE lengths, 24-byte LE canonical elements, 64-byte J, trailing partial element "
+   "and bytes after the report tag ignored)"],
+  {"differential": 100000, "both_accept": 20000, "both_reject": 20000, "report_roundtrip": 1000, "adss_roundtrip": 500, "sharks_roundtrip": 500},
+  [REL, DEV],
+  "runtime differential decoding against an independent layout parser (release and overflow-checked dev builds; libFuzzer in thorough)",
+  "Every enumerated structural fault of every generated artefact was decoded by both the real decoder and the model; agreement on "
+  "accept/reject and on the canonical re-encoding.",
+  "model written from the documented layout, shares no code with the crates")
+
+P("C09", "fault_enumeration",
+  "the hostile corpus of C08 plus degenerate collections (no y, thresholds 0 / 2^31 / 2^32-1, mixed y counts, duplicates, empty), "
+  "public keys / proofs / JSON evaluations and points under prefix / byte / length faults and size limits, Server::eval on arbitrary "
+  "32-byte points x tags x verifiable, Client::verify on every combination of garbled public-key point / input / output / missing or "
+  "random proof / tag, group_shares on illegal base64, padding, CRLF, empty lines, truncations and base64 of mutated shares; every "
+  "call in catch_unwind inside child processes that publish the case index (aborts are attributed too). distinct = (entry point, input).",
+  ["panic = unwind builds; aborts detected through child exit status", "inputs are at most ~1 MiB; RLIMIT_AS 8 GiB in plain builds"],
+  {"call:MessageFromBytes": 5000, "call:AdssFromBytes": 5000, "call:ClientVerify": 5000, "call:GroupShares": 3000,
+   "call:ServerEval": 500, "call:AdssRecover": 200, "call:ShareRecover": 200, "call:SharksRecover": 200, "call:PkLoad": 1000,
+   "call:ProofLoad": 500, "call:JsonEvaluation": 1000, "call:SharksTryFrom": 2000, "call:LoadBytes": 500, "children_completed": 1},
+  [REL, DEV],
+  "runtime panic/abort observer over a structure-aware hostile corpus (release + dev; ASan, Miri, valgrind, libFuzzer in thorough)",
+  "Every listed entry point was called on every enumerated malformed / degenerate input; no panic, abort or sanitizer report, and "
+  "structurally invalid input came back through the failure channel.",
+  "crash-freedom is shown for the generated corpus only; sanitizer stages see what the corpus reaches")
+
+P("C10", "exploration",
+  "real GGM keys cloned at branch points: E1 all 2^8 subsets and all 1 024 single-step transitions of aligned / consecutive / random "
+  "8-leaf sub-domains (thorough also 16-leaf: 65 536 subsets, 524 288 transitions each) plus every puncture order for |S|<=4; E2 "
+  "ordered pairs over the full domain (quick 28 first elements x 255, thorough all 65 280); E3 complete puncturing (256 steps) in "
+  "random / ascending / descending / bit-reversed / Gray / sibling-first / subtree-last orders with double punctures and wrong-length "
+  "inputs; after every step the full 256-entry behaviour table is compared with baseline + punctured-set model. states = distinct "
+  "punctured sets visited.",
+  ["each task uses its own fresh key (values differ per key; behaviour is relational to that key's baseline)"],
+  {"table_checks": 10000, "punctures": 10000, "subdomain_transitions": 3000, "ordered_pairs": 3000, "complete_puncturings": 7},
+  [REL],
+  "runtime reference-model monitor (baseline table + punctured set) over exhaustive sub-domain exploration of the real key",
+  "Exhaustive over the listed sub-spaces (exhaustive_subspaces=true in the evidence), sampled long sequences beyond.",
+  "256-input domain fully evaluated after every transition")
+
+P("C11", "exploration",
+  "every state of the C10 exploration (all 256 first elements of the ordered pairs, 8- and 16-leaf sub-domains, long sequences) read "
+  "through the verif-hooks view of the retained nodes: I2 no retained prefix is an ancestor of a punctured leaf, I3 every unpunctured "
+  "leaf covered, I5 no retained seed equals a shadow-tree seed on a root->punctured-leaf path; Server-level histories over all 256 "
+  "tags with export -> bincode -> import into a fresh server at EVERY position: exported bytes scanned for forbidden seeds (layout-free), "
+  "importer view equal to exporter's, attacker run evaluating every punctured tag on the importer. states = distinct punctured sets.",
+  ["needs ppoprf feature verif-hooks (read-only view of private fields)", "remnants in freed heap memory are out of scope of the statement"],
+  {"material_checks": 100000, "exports": 500, "imports": 500, "attacker_evaluations": 10000},
+  [REL],
+  "runtime invariant hooks on retained key material + export scan + import-and-attack, over the C10 state exploration",
+  "Held on ~1.2e6 key states and ~3e3 export positions per quick run.",
+  "shadow tree uses the repository's own PRG through the hook but the monitor's own tree logic",
+  controls=["shadow_tree_reproduces_baseline", "shadow_tree_complete", "export_scan_finds_retained_seeds", "importer_evaluates_unpunctured_tag"])
+
+P("C12", "exploration",
+  "4 independently keyed servers (tag sets incl. 0/255, adjacent tags, all 256; two servers with equal tag sets), inputs empty / 1 byte / "
+  "64 B / 2-10 KiB / near-identical, >= 3 independent blind->eval->unblind->finalize rounds per (server, tag, input), verifiable and "
+  "not; unblinded result compared with the server's direct evaluation of the unblinded input point; global injectivity of result "
+  "points and outputs; freshness sets for blinded requests and blinding scalars. distinct = (server, tag, input) per case.",
+  ["the unblinded input point is observed relationally as unblind(blind(x))"],
+  {"rounds": 5000, "direct_evaluations": 5000, "verifications": 2000},
+  [REL],
+  "runtime relational PRF monitor with global injectivity and freshness sets",
+  "Held-on-observed over >= 3e4 rounds per quick run.",
+  ">= 252-bit values: chance collisions ignored")
+
+P("C13", "fault_enumeration",
+  "per case 6 honest verifiable evaluations (completeness directly, after pk bincode + evaluation JSON, after proof bincode); nonce "
+  "monitor recomputing s*G + c*PK from the public verification equation over all proofs of the run; single-component tampering of "
+  "(base public key, per-tag public key, whole key of another server, input point, output point, tag, c, s, whole proof) by: other "
+  "honest value, +-G / 2x / negation / random multiple, identity, base point, +-1 / negation / bit flips (16 sampled, thorough all 256) "
+  "/ zero / one for scalars, other registered and unregistered tags. distinct = (component, variant, case).",
+  ["tampering another tag's entry, or compensating base/tag changes, keep the commitment and must verify (excluded by the statement)"],
+  {"tampered_verifications": 30000, "honest_proofs": 1000, "nonce_commitments_recomputed": 1000},
+  [REL],
+  "runtime fault enumeration on verification inputs + nonce-commitment set monitor",
+  "Every enumerated single-component replacement was rejected (or refused at load); all honest proofs verified through every "
+  "serialisation path; all recomputed commitments pairwise distinct.",
+  "single-component faults; multi-component forgeries are out of reach of enumeration",
+  controls=["untampered_tuple_verifies"])
+
+P("C14", "exploration",
+  "(a) bounded-exhaustive: EVERY sequence of depth 5 (thorough 6) over {eval(a), eval(b), eval(u), puncture(a), puncture(b), "
+  "puncture(u), export+import, clone+switch} for 6 tag configurations incl. 0/255/adjacent tags, all instances checked against the "
+  "sequential model at every leaf; (b) random histories (100-260 ops, thorough to 2 000) over 2..256 registered tags with a throw-away "
+  "export->import->compare at EVERY position; (c) concurrent stress in the shape of examples/server.rs (Arc<RwLock<Server>>, 8-15 "
+  "evaluating threads, a puncturing and an exporting thread, seeded yields), call/return tickets from one atomic clock, offline "
+  "per-tag checker. states = distinct operation sequences; transitions = operations executed in the exhaustive part.",
+  ["thread interleavings are whatever the stress produced; overlapping eval/puncture pairs are counted"],
+  {"exhaustive_sequences": 30000, "export_positions": 3000, "importer_comparisons": 50000, "concurrent_events": 5000,
+   "histories_with_real_overlap": 5},
+  [REL],
+  "runtime sequential reference model: bounded-exhaustive operation sequences on the real Server + offline history checker for the concurrent stress",
+  "All 8^5 (8^6) sequences per configuration executed; held on every leaf; concurrent histories checked offline.",
+  "model: registered set fixed at creation, punctured set per instance, memo of answers")
+
+P("C15", "fault_enumeration",
+  "public keys of tag-set sizes 0,1,2,8,255,256 (thorough every size 0..256): bincode round trip, equality, byte-identical "
+  "re-serialisation, interchangeability in verification; proofs (64 bytes) and Evaluations with/without proof and Points through "
+  "serde_json to_string/from_str and to_vec/from_slice; every strict prefix, map length +-k, trailing bytes, padding to limit-1 / "
+  "limit / limit+1 / limit+64 / 10x, duplicate and unsorted tags, non-canonical scalars (l, l+1, 2^255-1, FF), bit flips, uniform "
+  "strings judged against an independent model of the pinned bincode layout. distinct = input byte strings.",
+  ["bincode default options: fixed-width LE integers, trailing bytes accepted", "serde_json::from_reader / escaped strings are noted, not asserted"],
+  {"pk_malformed_inputs": 3000, "proof_malformed_inputs": 5000, "pk_roundtrips": 20, "json_roundtrips": 40},
+  [REL],
+  "runtime round-trip monitor + differential decoding against an independent bincode-layout model",
+  "Every enumerated malformed input was judged by model and loader; agreement on accept/reject and on the loaded value.",
+  "layout model pinned by the repository's own serialisation tests")
+
+P("C16", "exploration",
+  "thresholds 0..128, message and coin lengths {0,1,15,16,17,31,32,33,R-1,R,R+1,2R-1,2R,2R+1,1000 (thorough 20k/100k)} and random, "
+  "uniform / zero content; t+2 shares from independent Commune::new(..).share() calls: fields other than the point byte-identical, "
+  "points distinct and on one polynomial, any t recover, t-1 do not, threshold 0 never recovers, recovered sharing re-shares and "
+  "mixes with the originals, foreign transcripts rejected. distinct = (t, |M|, |R|, content classes).",
+  ["a transcript equal to the default is not asserted (would copy an internal label)"],
+  {"share": 20000, "recover": 3000, "recover_mixed": 1000, "recover_t0": 100, "recover_foreign_transcript": 300},
+  [REL],
+  "runtime determinism / re-share monitor with independent layout and BigUint polynomial checks",
+  "Held-on-observed over 6e3 sharings per quick run.",
+  "layout parser + BigUint trusted")
+
+P("C17", "exploration",
+  "create_share / group_shares called natively over arbitrary-byte measurements (incl. empty, zero), t=1..32, epochs empty / ASCII / "
+  "multi-byte UTF-8 / control characters, 2t shares per case: strict JSON, base64 fields, equality with the core library's key and "
+  "tag, share equal to a core share but for its point; grouping with t, t+1, 2t shares, t-1 shares (also padded with repeats), "
+  "mixtures below every threshold, four wrong epochs. distinct = (t, measurement length, epoch).",
+  ["star-wasm is built as an rlib and called natively (wasm-bindgen glue not exercised)"],
+  {"create_share": 10000, "group_shares": 3000, "group_shares_below_threshold": 1000, "group_shares_mixture": 1000, "group_shares_wrong_epoch": 3000},
+  [REL],
+  "runtime wrapper-faithfulness monitor against the core library",
+  "Held-on-observed over 5e3 cases per quick run.",
+  "core library behaviour itself is covered by C01/C02/C04")
+
+P("C18", "exploration",
+  "scenarios of 1..300 groups, group sizes 1..2t around t in {1,2,3,5,8} (t-1, t, t+1 frequent), one report per client, aux absent / "
+  "empty / unique client id, input in generation / reversed / shuffled order, rayon pools of 1,2,3,4,8,16 threads; output "
+  "canonicalised to measurement -> sorted aux multiset (empty == absent) and compared with the expected map and across all runs of a "
+  "scenario; the verif-hooks callback records bucket -> worker thread and injects seeded jitter. states = distinct (pool size, "
+  "bucket->thread assignment) vectors seen.",
+  ["needs star-test-utils feature verif-hooks", "replayed copies of one report are outside 'honest reports'"],
+  {"server_runs": 300, "buckets_observed_by_hook": 3000, "runs_on_several_worker_threads": 50, "pool16_runs_on_several_threads": 5,
+   "pool2_runs_on_several_threads": 5},
+  [REL],
+  "runtime conservation/exactly-once monitor with unique client ids + schedule fingerprints via hook",
+  "Held on every (scenario, pool, permutation) run; distinct schedules counted in the evidence.",
+  "schedules are whatever rayon + jitter produced")
